@@ -127,9 +127,11 @@ class Tracer:
             ab = b''.join(np.asarray(df[c].values, dtype=np.float64).tobytes() for c in ('x', 'y', 'z'))
         except Exception:
             return None      # table temporarily indexed by node_id etc.
-        shp = str(len(df)).encode()
+        # the dtypes belong to the content: since core_md5 hashes every column in its own dtype a re-typed column
+        # (int32 -> int64 after an operation that rebuilds the table) is a change of the checksum too
+        shp = (str(len(df)) + '|' + ','.join(str(df[c].dtype) for c in HASHED)).encode()
         hv = hashlib.sha1(tb + ab + shp).hexdigest()
-        ht = hashlib.sha1(tb + shp).hexdigest()
+        ht = hashlib.sha1(tb + str(len(df)).encode()).hexdigest()
         v = self.cids.setdefault(hv, len(self.cids))
         t = self.tids.setdefault(ht, len(self.tids))
         return (v, t)
@@ -307,7 +309,13 @@ class Tracer:
             def fget(self, _o=prop.fget, _n=name):
                 T.pre(self)
                 T.post(self, 'E:' + _n)
-                r = _o(self)
+                try:
+                    r = _o(self)
+                except BaseException:
+                    # the compute body raised: close the entry with a marker (an `enter` of no view: a no-op of the model),
+                    # so that what follows is not mistaken for events of this read
+                    T.post(self, 'E:!aborted')
+                    raise
                 T.post(self, 'Q:' + _n)
                 return r
             setattr(TreeNeuron, name, property(fget, prop.fset, prop.fdel, prop.__doc__))
@@ -726,7 +734,8 @@ class Run:
         self.had_nonadm = False
         self.radius_dirty = False   # radius edited since `_simple` was computed
         self.aba_taint = self.type_taint = False
-        # the exact content changed but its float64 image did not (possible only with |id| > 2**53): open finding SIG_F64
+        # the exact content changed but its float64 image did not (possible only with |id| > 2**53): such edits were invisible
+        # to the checksum before core_md5 hashed every column in its own dtype (finding SIG_F64, fixed); counted only
         self.f64_taint = False
         self.prev_img = None
         self.others = []            # bystanders: [obj, label, inherited signature, content, fresh neuron, memo]
@@ -851,7 +860,8 @@ class Run:
         self.check_others(label)
 
     def k(self, sig=None):
-        return SIG_F64 if self.f64_taint else sig
+        # (finding SIG_F64 is repaired: a change that is invisible in the float64 image of the table is a change like any other)
+        return sig
 
     # -- bystanders ------------------------------------------------------------------------------
     def watch(self, obj, label):
@@ -893,14 +903,13 @@ class Run:
 
     def signature(self, view, predicted_stale, radius_only):
         """Known-finding signature of a failure, decided from what the *model* says about the history."""
-        if self.f64_taint:
-            return SIG_F64
         v = self.spec.by_name.get(view)
         if view == 'simple' and v and not v['wrapped'] and predicted_stale:
             return SIG_SIMPLE
         if self.aba_taint:
             return SIG_ABA
         if self.type_taint:
+            # (finding SIG_TYPE is repaired; the signature is kept so that a recurrence is reported under its name)
             return SIG_TYPE      # e.g. downsample (simple) and the Python segment code select nodes by `type`
         if radius_only:
             return SIG_SIMPLE_RADIUS
@@ -1170,7 +1179,7 @@ CORPUS = [
                             dict(ev='restore_replace', a=0, b=0, c=0), R('igraph')], name='aba-reroot-restore'),
     dict(forest=F6, events=[R('graph'), R('igraph'), dict(ev='save', a=0, b=0, c=0), dict(ev='op', op='subset', a=3, b=0, c=0),
                             dict(ev='restore_replace', a=0, b=0, c=0), R('graph'), R('igraph')], name='aba-subset-restore'),
-    # Lean `type_stale_witness`
+    # Lean `type_stale_witness_historical` (finding SIG_TYPE, repaired: the in-place operators validate first): must pass now
     dict(forest=F6, events=[dict(ev='edit_parent', a=2, b=1, c=0), dict(ev='op', op='imul', a=0, b=0, c=0), dict(ev='types'),
                             R('graph'), dict(ev='types')], name='type-stale'),
     # edit / undo without locks (Lean `edit_undo_fresh`)
